@@ -351,6 +351,86 @@ Fixpoint j2 (t : tree) : jv :=
     JArr (flat_map (fun k => if is_elem k then [j2 k] else []) ks)
   else obj_finish (fold_left (fun acc k => obj_step (j2 k) acc k) ks ([], [], [])).
 
+(* json.Marshal sorts object keys: compare value trees up to key order *)
+Fixpoint bytes_leb (a b : bytes) : bool :=
+  match a, b with
+  | [], _ => true
+  | _ :: _, [] => false
+  | x :: a', y :: b' =>
+      if N.ltb (Byte.to_N x) (Byte.to_N y) then true
+      else if N.ltb (Byte.to_N y) (Byte.to_N x) then false
+      else bytes_leb a' b'
+  end.
+
+Fixpoint kv_insert (k : bytes) (v : jv) (l : list (bytes * jv)) : list (bytes * jv) :=
+  match l with
+  | [] => [(k, v)]
+  | (k', v') :: r => if bytes_leb k k' then (k, v) :: l else (k', v') :: kv_insert k v r
+  end.
+
+Fixpoint jv_norm (v : jv) : jv :=
+  match v with
+  | JArr l => JArr (map jv_norm l)
+  | JObj l => JObj (fold_right (fun kv acc => kv_insert (fst kv) (jv_norm (snd kv)) acc) [] l)
+  | _ => v
+  end.
+
+Fixpoint jv_eqb (a b : jv) : bool :=
+  match a, b with
+  | JStr x, JStr y | JNum x, JNum y | JBool x, JBool y => bytes_eqb x y
+  | JNull, JNull => true
+  | JArr l, JArr l' =>
+      (fix go (l l' : list jv) : bool :=
+         match l, l' with
+         | [], [] => true
+         | x :: r, y :: r' => jv_eqb x y && go r r'
+         | _, _ => false
+         end) l l'
+  | JObj l, JObj l' =>
+      (fix go (l l' : list (bytes * jv)) : bool :=
+         match l, l' with
+         | [], [] => true
+         | (k, x) :: r, (k', y) :: r' => bytes_eqb k k' && jv_eqb x y && go r r'
+         | _, _ => false
+         end) l l'
+  | _, _ => false
+  end.
+
+(* the shape of a raw record of the flat formats *)
+Definition flat_field (nv : bytes * bytes) : tree :=
+  T ElementNode (fst nv) FNone [T TextNode (snd nv) FNone []].
+Definition flat_rec (rty : ntype) (rname : bytes) (fields : list (bytes * bytes)) : tree :=
+  T rty rname FNone (map flat_field fields).
+
+Definition field_of (k : tree) : option (bytes * bytes) :=
+  match k with
+  | T ElementNode n FNone [T TextNode v FNone []] => Some (n, v)
+  | _ => None
+  end.
+
+Fixpoint fields_of (ks : list tree) : option (list (bytes * bytes)) :=
+  match ks with
+  | [] => Some []
+  | k :: r => match field_of k, fields_of r with
+              | Some f, Some fs => Some (f :: fs)
+              | _, _ => None
+              end
+  end.
+
+Fixpoint nodup_bytes (l : list bytes) : bool :=
+  match l with
+  | [] => true
+  | x :: r => negb (existsb (bytes_eqb x) r) && nodup_bytes r
+  end.
+
+(* t = flat_rec _ _ fields with >= 2 pairwise distinct names: the premises of canon_injective_flat *)
+Definition is_flat_rec (t : tree) : bool :=
+  match t_fs t, fields_of (t_kids t) with
+  | FNone, Some fs =>
+      tree_eqb t (flat_rec (t_type t) (t_data t) fs) && nodup_bytes (map fst fs) && (1 <? length fs)
+  | _, _ => false
+  end.
+
 (* ---- correspondence cases ---------------------------------------------------------------------------- *)
 (* Results are interned by the harness (0 = ErrTransformFailed, k > 0 = the k-th distinct
    (output bytes, checksum) pair of the case).  The checkers evaluate exactly the list equations
@@ -381,8 +461,11 @@ Definition check_c13 (c : c13case) : bool := all_equal (c13_runs c) && (1 <? len
 
 Inductive c15case :=
 | C15Det (runs : list (list N))                  (* repeated / re-loaded / after prefix / fresh process *)
-| C15Sum (before after : list N) (i dup n : nat). (* checksums before and after editing record i;
+| C15Sum (before after : list N) (i dup n : nat)  (* checksums before and after editing record i;
                                                      record n is a copy of record dup *)
+| C15Flat (t : tree)                             (* a raw record of a flat format *)
+| C15Canon (t : tree) (observed : jv).           (* a raw record and idr.J2NodeToInterface(n, true) of it,
+                                                     keys sorted as json.Marshal does *)
 
 Fixpoint differ_exactly_at (i : nat) (a b : list N) : bool :=
   match a, b, i with
@@ -398,4 +481,6 @@ Definition check_c15 (c : c15case) : bool :=
   | C15Sum before after i dup n =>
       (i <? n) && differ_exactly_at i before after
       && N.eqb (nth dup before 0%N) (nth n before 1%N)
+  | C15Flat t => is_flat_rec t
+  | C15Canon t observed => jv_eqb (jv_norm (j2 t)) observed
   end.
